@@ -1,13 +1,14 @@
 SPECIFICATION Spec
 CONSTANTS
   Family = "event1"
-  Versions <- VersionsTwo
-  TypesC <- TypesThree
+  Versions <- VersionsPair
+  TypesC <- TypesTwo
   Depth = "core"
   FieldSet = "core"
+  Entries <- EntriesUntrusted
   MaxOps = 3
   Heavy <- NoOps
-  HeavyAfter <- HeavyLiteSet
-  Muts <- MutsQuick
+  HeavyAfter <- Heavy3
+  Muts <- MutsTwo
 INVARIANTS TypeOK NoPanic WellOrdered Emit
 CHECK_DEADLOCK FALSE
